@@ -14,8 +14,7 @@
                 NEL LS PS);
     [lfs_ok x]  every line transformation in the expression maps well-formed sequences of such lines
                 to well-formed sequences of such lines, every external program ([run]) maps such texts
-                to such texts, and the parts of a concatenation do not let a child process write to the
-                descriptor of the output file (SProg / SRun parts: known finding KF-C14-3). *)
+                to such texts. *)
 From Coq Require Import NArith List Bool.
 From Exactly Require Import Lib.Text Lib.TextLemmas Model.StrSrc Spec.C14 Proofs.Utf8 Proofs.StrSrcSpool Proofs.StrSrcViews
   Proofs.StrSrcMatch.
@@ -97,17 +96,13 @@ Proof.
 Qed.
 Print Assumptions C14_views_agree_refuted.
 
-(** REFUTED for a concatenation with a program part (known finding KF-C14-3; replayed on the real
-    program: harness/corpus/C14/concat_program_part_d.case): clean texts, yet the file view has the
-    program's output BEFORE the literal. *)
-Theorem C14_concat_views_agree_refuted :
-  exists (x : src) (b : N) (accs : list access),
-    fresh x /\ leaves_ok x = true /\ forallb (obs_ok (den x)) (fst (run b accs x)) = false.
-Proof.
-  exists (SConcat cs0 (SStr [88]) (SProg [97; 10; 98; 10] cs0)), 8192, [AFile; AStr].
-  split; [cbn; auto|]. split; vm_compute; reflexivity.
-Qed.
-Print Assumptions C14_concat_views_agree_refuted.
+(** Writing several parts to one file as it was BEFORE the repair (commit 527f9c3, found by this
+    check; regression input harness/corpus/C14/concat_program_part_d.case): a literal part followed by
+    a part written by a child process through the descriptor ended up in the opposite order. *)
+Theorem C14_prefix_concat_file_refuted :
+  exists evs : list wev, file_of_events_prefix evs <> text_of evs /\ file_of_events evs = text_of evs.
+Proof. exists [WStr [88]; WFd [97; 10; 98; 10]]. split; [vm_compute; discriminate | reflexivity]. Qed.
+Print Assumptions C14_prefix_concat_file_refuted.
 
 (** The rollover of the spooled file as it was BEFORE the repair (commit 9d1b36a, found by this
     check): with a non-ASCII character in the memory buffer the lines written after the rollover
@@ -177,18 +172,18 @@ Print Assumptions C14_identity_and_conj_idempotent_refuted.
     hypotheses of the main theorem, rolls over to disk, and shows one value. *)
 Example C14_example :
   let x := build (SProg [8364; 97; 10; 10; 98; 99] cs0) (Some (TSeq [TId; TFilter (p_num_ge 1); TRun g_cat; TUpper])) in
-  fresh x /\ leaves_ok x = true /\ den x = [8364; 65; 10; 10; 66; 67] /\
+  leaves_ok x = true /\ den x = [8364; 65; 10; 10; 66; 67] /\
   fst (run 2 [AFile; AFreeze; ADep; ALines; AStr; AFile] x)
   = [OFile (FText [8364; 65; 10; 10; 66; 67]); OFrozen; ODep true; OLines [[8364; 65; 10]; [10]; [66; 67]];
      OStr [8364; 65; 10; 10; 66; 67]; OFile (FText [8364; 65; 10; 10; 66; 67])].
-Proof. vm_compute. repeat split; reflexivity. Qed.
+Proof. cbv zeta. split; [vm_compute; reflexivity|]. split; vm_compute; reflexivity. Qed.
 
 (** Non-vacuity of the consequences: a matcher using every construct, expected text from a program,
     model from a file through a transformer chain, small buffer. *)
 Example C14_example_verdicts :
   let x := build (SFile [97; 10; 98; 10; 99]) (Some (TAtom (TFilter (p_num_ne 2)))) in
   let m := MConj (MNeg MEmpty) (MDisj (MNumLines CGe 3) (MOnTrans (TSeq [TUpper; TId]) (MEquals (SConcat cs0 (SFile [65; 10]) (SStr [67]))))) in
-  matcher_ok m /\ fresh x /\ leaves_ok x = true /\
+  leaves_ok x = true /\
   map (fun m' => fst (m_eval 1 100 m' x)) (variants m) = [Some true; Some true; Some true; Some true] /\
   kind_verdicts 2 100 [97; 10; 98] [97; 10; 98] (Some (TAtom TId)) = repeat (Some true) 9.
-Proof. vm_compute. repeat split; reflexivity. Qed.
+Proof. cbv zeta. split; [vm_compute; reflexivity|]. split; vm_compute; reflexivity. Qed.
